@@ -27,6 +27,9 @@ the product of two ADJACENT cores inside (1e-100, 2^1000): the algorithm forms t
 and core_stab leaves values below its threshold 1e-100 unscaled.  What happens outside that band is isolated in
 `C04.orthogonalize.stab_extreme_cores` (per-core 2^-170 / 2^-450 / 2^-600 / 2^+520 / 2^+600 / alternating 2^+-600), which states the property as
 written ("huge and tiny scales": input = 2^p Z, moderate entries).
+`C04.orthogonalize.stab_tiny_after_scaled` (added after seeded change C04-13): tensor preservation alone for MIXED profiles
+(2^10 / 1 / 2^-500 and permutations, every pivot): a core below core_stab's threshold that follows a rescaled one must carry
+the accumulated power on.
 
 Parameter / regime coverage added by the audit of the signatures:
 * `C04.orthogonalize.many_modes`  d = 30 .. 90 (thorough 130), pivots 0 / 1 / middle / d-2 / d-1 / None, both stab
@@ -298,6 +301,21 @@ def stab_extreme(n, r, seed, exps, k):
     mx = float(np.abs(c.Z[c.k]).max())
     if not (1.0 <= mx < 2.0):
         return FAIL(f'pivot core max-modulus {mx:.3e} not in [1, 2) (p = {c.p}, total exponent {c.S})')
+    return PASS
+
+
+@clause('C04.orthogonalize.stab_tiny_after_scaled', funcs=('transformation.orthogonalize', 'core.core_stab'))
+def stab_tiny_after_scaled(n, r, seed, exps, k):
+    """Tensor preservation only (input = 2^p Z) for MIXED per-core scales: a core that is rescaled (non-zero accumulated power)
+    followed in the sweep by a weight-receiving core below core_stab's threshold 1e-100, which is passed through unscaled and
+    has to carry the accumulated power on (seeded change C04-13; nothing is claimed about the size of the entries here)."""
+    c, res = run(n, r, seed, 'gauss', 'C', 'none', exps, k, True)
+    if c is None:
+        return res
+    A = np.ldexp(gen.dense(c.Z), int(c.p) - c.S)
+    err = float(np.linalg.norm(A - c.D0))
+    if not err <= c.tol:
+        return FAIL(f'||2^p dense(Z) - D|| = {err:.3e} > {c.tol:.3e} (p = {c.p}, total exponent {c.S})')
     return PASS
 
 
@@ -612,6 +630,10 @@ def cases(tier, seed):
         for exps in ([-450], [-600], [600], [520], [-170], [600, -600]):
             for k in (0, len(n) - 1):
                 yield 'C04.orthogonalize.stab_extreme_cores', dict(n=n, r=[1] + [2] * (len(n) - 1) + [1], seed=1, exps=exps, k=k)
+    for n in ([2, 3, 2], [3, 2, 2, 3]):
+        for exps in ([10, 0, -500], [-500, 0, 10], [40, -500, 0, 7], [7, 0, -500, 40]):
+            for k in range(len(n)):
+                yield 'C04.orthogonalize.stab_tiny_after_scaled', dict(n=n, r=[1] + [2] * (len(n) - 1) + [1], seed=2, exps=exps, k=k)
     # single steps at huge / tiny per-core scales (the single-step variants have no stabilisation: products stay in range)
     for j2, n in enumerate(shapes):
         d = len(n)
